@@ -35,7 +35,10 @@ META = {
             '(thread, yield point) trace; non-trivial = at least two thread switches while more than one thread was '
             'unfinished. Workload shapes: slice bounds, getattr names, parameter type changes, identical query '
             'strings, raw SQL $params, first use of entities, lambda args, chained filters/order_by/kwargs, '
-            'aggregates+limits, hybrid methods, private-row writes, 3-thread mixes, cross-thread object use.',
+            'aggregates+limits, hybrid methods, private-row writes, 3-thread mixes, baked-in parameters (getattr name, '
+            'slice bound) inside NESTED generators with a thread-constant value per thread, cross-thread object use '
+            'from a session that already worked with the database (warm) and as the very first action of a new '
+            'session (fresh).',
     'assumptions': ['SQLite file database, threads of one process (PostgreSQL/MySQL pools not executed)',
                     'preemption points are source lines of the listed cache functions, DB-API calls, lock waits and '
                     'step boundaries; finer (bytecode-level) or other-function preemptions are not explored',
